@@ -45,6 +45,17 @@ pub open spec fn frp_ok(parts: Parts, body: Bytes, options: SignatureOptions, cr
             &&& folded_uri_ok(cr.qview(), cr.path_bytes(), parts2.uri)
         }
 }
+/// C02 / C12 (completeness of canonicalisation): when from_request_parts must succeed. The path and URL query are well-formed and, when the
+/// form body is folded, its charset is known, it decodes, it parses as a query string and http accepts the rebuilt path-and-query
+pub open spec fn frp_accepts(parts: Parts, body: Bytes, options: SignatureOptions) -> bool {
+    &&& canon_path(parts.uri.path, options.s3) is Some && parse_query(url_query(parts)) is Some
+    &&& folds(parts, options) ==> {
+        let bodyq = str_bytes(spec_decode(body_encoding(parts)->Some_0, body.data)->Some_0);
+        &&& body_encoding(parts) is Some && spec_decode(body_encoding(parts)->Some_0, body.data) is Some && parse_query(bodyq) is Some
+        &&& forall|qs: Seq<u8>| #[trigger] is_canon_query(map_of(parse_query(url_query(parts))->Some_0 + parse_query(bodyq)->Some_0), qs)
+                ==> uri_accepts(canon_path(parts.uri.path, options.s3)->Some_0 + (if qs.len() > 0 { seq![0x3fu8] + qs } else { Seq::<u8>::empty() }))
+    }
+}
 pub proof fn lemma_frp_wf(parts: Parts, body: Bytes, options: SignatureOptions, cr: CanonicalRequest, parts2: Parts, body2: Bytes)
     requires frp_ok(parts, body, options, cr, parts2, body2)
     ensures cr.wf()
@@ -85,6 +96,7 @@ impl CanonicalRequest {
                     && parse_query(str_bytes(spec_decode(body_encoding(parts)->Some_0, body.data)->Some_0)) is None ==> r is Err && r->Err_0 is MalformedQueryString)
         }, //# C12 C13 name=undecodable_or_malformed_form_body_is_refused
         r is Err ==> (r->Err_0 is InvalidURIPath || r->Err_0 is MalformedQueryString || r->Err_0 is InvalidBodyEncoding), //# C13 name=stage_error_kinds
+        d6_ok(parts) && frp_accepts(parts, body, options) ==> r is Ok, //# C02 C12 name=well_formed_request_is_accepted_by_canonicalisation
         d6_ok(parts) && r is Ok ==> frp_ok(parts, body, options, r->Ok_0.0, r->Ok_0.1, r->Ok_0.2), //# C01 C09 C10 C11 C12 C15 C19 name=canonical_request_is_that_of_the_request_as_received_and_request_passes_through
 //@ bodystart
     let ghost parts0 = parts;
@@ -261,6 +273,46 @@ pub open spec fn accepted<G>(parts: Parts, body: Bytes, options: SignatureOption
             provider_answer::<G, GetSigningKeyRequest, GetSigningKeyResponse, BoxError>(g0, req), out, cr, a, d, req)
 }
 
+/// C02 (completeness, end to end): every stage's acceptance condition holds for the request as received - canonicalisation succeeds; for the
+/// canonical request it yields, exactly one carrier is present, its extraction meets every signed-header requirement and carries an ISO-8601
+/// timestamp; the authenticator built from it is inside the 15 minute window and in scope; and the provider, asked for that credential,
+/// answers with a key under which the presented signature is the HMAC of the string to sign
+pub open spec fn acceptable<G>(parts: Parts, body: Bytes, options: SignatureOptions, always: Seq<Seq<u8>>, ifreq: Seq<Seq<u8>>, prefixes: Seq<Seq<u8>>,
+    region: &str, service: &str, now: DateTime<Utc>, g0: G) -> bool
+{
+    &&& frp_accepts(parts, body, options)
+    &&& forall|cr: CanonicalRequest, parts2: Parts, body2: Bytes| #[trigger] frp_ok(parts, body, options, cr, parts2, body2) ==> {
+        &&& cr.acceptable_authenticator(always, ifreq, prefixes)
+        &&& forall|a: SigV4Authenticator| #[trigger] cr.authenticator_ok(always, ifreq, prefixes, a) ==> {
+            &&& forall|d: Duration| #[trigger] fifteen_minutes(d) ==> a.pre_ok(region.spec_bytes(), service.spec_bytes(), now, d)
+            &&& forall|req: GetSigningKeyRequest| #[trigger] a.is_provider_request(region@, service@, req) ==> {
+                let ans = provider_answer::<G, GetSigningKeyRequest, GetSigningKeyResponse, BoxError>(g0, req);
+                ans is Ok && a.sig() == a.expected_sig(ans->Ok_0.s_key())
+            }
+        }
+    }
+}
+
+/// instantiation of `acceptable` at the canonical request and authenticator at hand (proof hint used between the last two stages)
+pub proof fn vk_completeness_hint<G>(parts: Parts, bb: Result<Bytes, BoxError>, options: SignatureOptions, always: Seq<Seq<u8>>, ifreq: Seq<Seq<u8>>, prefixes: Seq<Seq<u8>>,
+    region: &str, service: &str, now: DateTime<Utc>, g0: G, cr: CanonicalRequest, parts2: Parts, body2: Bytes, a: SigV4Authenticator)
+    requires bb is Ok ==> frp_ok(parts, bb->Ok_0, options, cr, parts2, body2), cr.authenticator_ok(always, ifreq, prefixes, a)
+    ensures
+        bb is Ok && acceptable::<G>(parts, bb->Ok_0, options, always, ifreq, prefixes, region, service, now, g0) ==> {
+            &&& a.pre_ok(region.spec_bytes(), service.spec_bytes(), now, Duration { ns: 900_000_000_000int })
+            &&& forall|req: GetSigningKeyRequest| #[trigger] a.is_provider_request(region@, service@, req) ==> {
+                let ans = provider_answer::<G, GetSigningKeyRequest, GetSigningKeyResponse, BoxError>(g0, req);
+                ans is Ok && a.sig() == a.expected_sig(ans->Ok_0.s_key())
+            }
+        }
+{
+    let d = Duration { ns: 900_000_000_000int };
+    assert(fifteen_minutes(d));
+}
+
+// (own module: one solver context per module keeps this function's query independent of the rest of the unit)
+pub mod validate_m {
+use super::*;
 //@ fn signature.rs sigv4_validate_request
 //@ hideutf8
 //@ props C08 C01 C02 C04 C13 C14 C15 C17
@@ -269,7 +321,7 @@ pub open spec fn accepted<G>(parts: Parts, body: Bytes, options: SignatureOption
 //    are desugared to what they mean: `match e { Ok(v) => v, Err(e) => return Err(From::from(e)) }`)
 //@ replace 1 `CanonicalRequest::from_request_parts(parts, body, options)?;` => `match CanonicalRequest::from_request_parts(parts, body, options) { Ok(v) => v, Err(e) => return Err(BoxError::from(e)) };`
 //@ replace 1 `canonical_request.get_authenticator(required_headers)?;` => `match canonical_request.get_authenticator(required_headers) { Ok(v) => v, Err(e) => return Err(BoxError::from(e)) };`
-//@ replace 1 `        )<NL>        .await?;` => `        ).await; let sigv4_response = match sigv4_response { Ok(v) => v, Err(e) => return Err(BoxError::from(e)) };`
+//@ replace 1 `        )<NL>        .await?;` => `        ).await; proof { vk_completeness_hint::<G>(request.parts, request.body.body_bytes(), options, required_headers.always_spec(), required_headers.if_in_request_spec(), required_headers.prefixes_spec(), region, service, server_timestamp, *old(get_signing_key), canonical_request, parts, body, auth); } let sigv4_response = match sigv4_response { Ok(v) => v, Err(e) => return Err(BoxError::from(e)) };`
 //@ spec
     requires
         forall|i: int| 0 <= i < required_headers.always_spec().len() ==> all_ascii(#[trigger] required_headers.always_spec()[i]),
@@ -283,6 +335,10 @@ pub open spec fn accepted<G>(parts: Parts, body: Bytes, options: SignatureOption
         r is Ok ==> accepted::<G>(request.parts, request.body.body_bytes()->Ok_0, options, required_headers.always_spec(), required_headers.if_in_request_spec(),
             required_headers.prefixes_spec(), region, service, server_timestamp, *old(get_signing_key), old(get_signing_key).calls(), final(get_signing_key).calls(), r->Ok_0)
         , //# C01 C02 C04 C14 C15 name=success_means_every_stage_passed_and_signature_matches
+        // C02: a request that meets every stage's acceptance condition is accepted, however its path, query and headers are spelled
+        request.body.body_bytes() is Ok && acceptable::<G>(request.parts, request.body.body_bytes()->Ok_0, options, required_headers.always_spec(),
+            required_headers.if_in_request_spec(), required_headers.prefixes_spec(), region, service, server_timestamp, *old(get_signing_key))
+            ==> r is Ok, //# C02 name=request_meeting_every_acceptance_condition_is_accepted
         // C14: at most one provider call
         final(get_signing_key).calls() == old(get_signing_key).calls()
             || exists|req: GetSigningKeyRequest| final(get_signing_key).calls() == old(get_signing_key).calls().push(req), //# C14 name=provider_called_at_most_once
@@ -323,3 +379,5 @@ pub open spec fn accepted<G>(parts: Parts, body: Bytes, options: SignatureOption
             required_headers.prefixes_spec(), region, service, server_timestamp, *old(get_signing_key), old(get_signing_key).calls(), final(get_signing_key).calls(), (parts, body, sigv4_response)));
     }
 //@ end
+} // mod validate_m
+pub use validate_m::*;
